@@ -454,7 +454,7 @@ def run(ctx, ck):
                 none_test = isinstance(p_, ast.Compare) and len(p_.ops) == 1 and isinstance(p_.ops[0], (ast.Is, ast.IsNot)) and \
                     isinstance(p_.comparators[0], ast.Constant) and p_.comparators[0].value is None
                 n_un += 1
-                ok_ = g_.qual in wset_ or g_.name.startswith('as_cmdline') or none_test
+                ok_ = g_.qual in wset_ or g_.name.startswith('as_cmdline') or none_test or g_.name in ('__str__', '__repr__')
                 ck.ob('R-DEP.unscaled-for-writer', '%s|%s' % (g_.qual, norm(x_)), ok_, g_.loc(x_),
                       'written back as entered' if ok_ else
                       '%s computes with %s, the value as entered before --geo-scale: the result does not scale with the '
